@@ -2,9 +2,12 @@
 # usage: tools/seeds_all.sh [tier]   — every seeded change against the check of the property it targets
 # (through tools/try_seed_iso.sh, so /repo is never touched). Prints one line per seed: detected / MISSED.
 tier=${1:-quick}
+# optional second argument: a regular expression on the seed id (to run several lanes side by side, each with its own ISO=n)
+only=${2:-.}
 cd "$(dirname "$0")/.."
 for d in seeded/*/; do
   id=$(basename "$d"); p=${id%%-*}
+  echo "$id" | grep -Eq "$only" || continue
   # (a few changes violate nothing the check of their own property observes: meta.json names the check that does)
   cw=$(jq -r '.check_with // empty' "$d/meta.json" 2>/dev/null); [ -n "$cw" ] && p=$cw
   if [ -n "$(jq -r '.neutralised_by // empty' "$d/meta.json" 2>/dev/null)" ]; then echo "skipped  $id :: no longer a breaking change (see meta.json: neutralised_by)"; continue; fi
